@@ -337,6 +337,32 @@ def run(ck):
             ck.ob("DEFUSE", f.path, "entry-charge-counts-declared-locals", ok,
                   "invoke_after(num_locals - number of parameters)" if ok else
                   "the entry charge is not computed from num_locals - parameters (sources: %s): locals declared in groups are undercharged" % sorted(set(a[1] for a in o if a[0] == "field")), f.loc(bi))
+    # energy amounts are formed at 64 bits: the run-time charges (InterpreterEnergy and the constants::*_cost formulas) multiply
+    # and add u64 values only. A product formed at 32 bits and widened afterwards wraps for large requests (memory.grow of
+    # 2^26 pages would cost 4 instead of 4 * 10^9) or panics in builds with overflow checks
+    eng = crate("sc", E)
+    nar_, nsites = [], 0
+    for p0 in sorted(eng.paths()):
+        if not re.search(r"::InterpreterEnergy::[a-z_]+$|::constants::[a-z0-9_]+_cost$", p0):
+            continue
+        for b in eng.get_all(p0):
+            g = Fn(b)
+            for bi in sorted(g.reachable()):
+                for st in g.stmts(bi):
+                    rv = st.get("rv", {})
+                    if rv.get("k") != "bin" or not re.match(r"^(Mul|Add|Shl)", rv["op"]):
+                        continue
+                    nsites += 1
+                    for x in (rv["a"], rv["b"]):
+                        k = op_const(x)
+                        pl = op_place(x)
+                        ty = k.get("ty") if k is not None else (g.locals[pl[0]] if pl and not pl[1] else None)
+                        if ty is not None and ty != "u64":
+                            nar_.append((p0, rv["op"], ty, g.loc(bi)))
+    ck.ob("CONST", E + "::constants / InterpreterEnergy", "energy-arithmetic-at-64-bits", not nar_,
+          "%d additions/multiplications in the run-time charge formulas, all on u64 operands" % nsites if not nar_ else
+          "%s in %s is formed on %s operands and widened afterwards: the charge wraps (or the host panics) for large arguments" % (nar_[0][1], nar_[0][0].split("::")[-1], nar_[0][2]), nar_[0][3] if nar_ else "")
+    ck.floor("CONST", "arithmetic sites in run-time charge formulas", nsites, 40)
     # call costs are looked up in the ORIGINAL index space: the per-function transformation runs before the import and type
     # lists are extended by the metering imports (afterwards every function index is shifted by NUM_ADDED_FUNCTIONS, and a
     # lookup with the unshifted index prices `call k` with the signature of function k - 1)
